@@ -71,6 +71,7 @@ def depthGE : Expr → Nat
   | .pre _ _ _ e => depthGE e + 1
   | .infix _ _ _ l r => max (depthGE l) (depthGE r) + 1
   | .ifE _ _ c t (some e) => max (depthGE c) (max (depthGB t) (depthGB e)) + 1
+  | .call _ _ (.member _ _ b _ _) args _ => max (depthGE b) (depthGArgs args) + 2
   | .call _ _ _ args _ => depthGArgs args + 1
   | .matchE _ _ c arms (some d) => max (depthGE c) (max (depthGArms arms) (depthGE d)) + 1
   | .index _ _ b i => max (depthGE b) (depthGE i) + 1
@@ -94,6 +95,7 @@ def varsGE : Expr → List String
   | .pre _ _ _ e => varsGE e
   | .infix _ _ _ l r => varsGE l ++ varsGE r
   | .ifE _ _ c t (some e) => varsGE c ++ (varsGB t ++ varsGB e)
+  | .call _ _ (.member _ _ b _ _) args _ => varsGE b ++ varsGArgs args
   | .call _ _ _ args _ => varsGArgs args
   | .matchE _ _ c arms (some d) => varsGE c ++ (varsGArms arms ++ varsGE d)
   | .index _ _ b i => varsGE b ++ varsGE i
@@ -120,6 +122,7 @@ def callsGE : Expr → List String
   | .infix _ _ _ l r => callsGE l ++ callsGE r
   | .ifE _ _ c t (some e) => callsGE c ++ (callsGB t ++ callsGB e)
   | .call _ _ (.ident _ _ name _ _ _) args _ => name :: callsGArgs args
+  | .call _ _ (.member _ _ b _ _) args _ => callsGE b ++ callsGArgs args
   | .matchE _ _ c arms (some d) => callsGE c ++ (callsGArms arms ++ callsGE d)
   | .index _ _ b i => callsGE b ++ callsGE i
   | .member _ _ b _ _ => callsGE b
@@ -146,6 +149,43 @@ def okXE : Expr → Bool
   | .pre _ _ _ e => okXE e
   | .grouped _ e => okXE e
   | e => okGE e
+
+mutual
+/-- **The expression fragment with its extension** (`fr = true`: cell reads `l[i]`, `o.f` and `l.len()`
+anywhere an expression may stand; `fr = false`: `okGE`). Finding V38 stays excluded as in `okXE`. -/
+def okE (fr : Bool) : Expr → Bool
+  | .int .. | .bool .. | .str .. | .null .. | .none .. => true
+  | .ident _ _ _ isGlobal isFn isSingleton => !isGlobal && !isFn && !isSingleton
+  | .grouped _ e => okE fr e
+  | .pre _ _ _ e => okE fr e
+  | .infix sp ty op l r =>
+    pureE (.infix sp ty op l r) ||
+      (!isLogical op && okE fr l && okE fr r && (!isRead l || (callsGE r).isEmpty))
+  | .ifE _ _ c t (some eb) => okE fr c && okEB fr t && okEB fr eb
+  | .call _ _ (.ident _ _ name _ _ _) args false =>
+    name != "throw" && name != "println" && okEArgs fr args && oneNonAtom args
+  | .call _ _ (.member _ _ b nm .dot) [] false => fr && nm == "len" && okE fr b
+  | .matchE _ _ c arms (some d) => okE fr c && okEArms fr arms && okE fr d
+  | .list _ _ xs => xs.all atomE
+  | .obj _ _ fs => fs.all (fun f => atomE f.2) && decide ((fs.map (·.1)).Nodup) &&
+      fs.all (fun f => f.1 != "len" && f.1 != "push")
+  | .index _ _ b i => fr && okE fr b && okE fr i && (!isRead b || (callsGE i).isEmpty)
+  | .member _ _ b _ .dot => fr && okE fr b
+  | _ => false
+def okEArms (fr : Bool) : List (List Expr × Expr) → Bool
+  | [] => true
+  | a :: as => a.1.all litE && okE fr a.2 && okEArms fr as
+def okEB (fr : Bool) : Block → Bool
+  | .mk _ _ [] (some e) => okE fr e
+  | _ => false
+def okEArgs (fr : Bool) : List (String × Expr) → Bool
+  | [] => true
+  | a :: as => okE fr a.2 && okEArgs fr as
+end
+
+/-- A value position (`let`, right-hand sides, operands of a heap-slot assignment): `okXE` in every
+context, the whole extended fragment when `fr`. -/
+def okV (fr : Bool) (e : Expr) : Bool := okXE e || okE fr e
 
 end Frag
 
@@ -247,6 +287,8 @@ def cgE (mod : String) (ρ φ : String → Option String) : Expr → LM → SCod
     ([(.cloningPush (.obj (fs.map fun f => (f.1, .null))), sp)] ++ (cgFields mod ρ sp fs lm).1, (cgFields mod ρ sp fs lm).2)
   | .member sp _ b name .dot, lm =>
     ((cgE mod ρ φ b lm).1 ++ [(.member name, sp)], (cgE mod ρ φ b lm).2)
+  | .call csp _ (.member msp _ b nm .dot) [] false, lm =>
+    ((cgE mod ρ φ b lm).1 ++ [(.member nm, msp), (.copyPush (.int 0), csp), (.callVal, csp)], (cgE mod ρ φ b lm).2)
   | _, lm => ([], lm)
 /-- The arm bodies of a `match`: `case: Drop; body; Jump after`. -/
 def cgArms (mod : String) (ρ φ : String → Option String) (sp : Span) (after : String) :
@@ -321,96 +363,6 @@ theorem cgE_of_pure (mod : String) (ρ φ : String → Option String) (e : Expr)
     (h : Frag.pureE e = true) : cgE mod ρ φ e lm = cpE mod ρ e lm :=
   (cgE_pure mod ρ φ (Frag.depthE e)).1 e lm (Nat.le_refl _) h
 
-/-! ## The right-hand side of `let`: a value-position expression, or the method call `l.len()` -/
-
-namespace Frag
-/-- `l.len()` with `l` in `okXE`. -/
-def lenCallOK : Expr → Bool
-  | .call _ _ (.member _ _ b nm .dot) [] false => nm == "len" && okXE b
-  | _ => false
-def depthL : Expr → Nat
-  | .call _ _ (.member _ _ b _ .dot) [] false => depthGE b + 3
-  | e => depthGE e
-def varsL : Expr → List String
-  | .call _ _ (.member _ _ b _ .dot) [] false => varsGE b
-  | e => varsGE e
-def callsL : Expr → List String
-  | .call _ _ (.member _ _ b _ .dot) [] false => callsGE b
-  | e => callsGE e
-def namesL (e : Expr) : List String := varsL e ++ callsL e
-end Frag
-
-/-- The code of the right-hand side of a `let`: `code(l); Member len; Copy_Push 0; Call_Val` for `l.len()`. -/
-def cgL (mod : String) (ρ φ : String → Option String) : Expr → LM → SCode × LM
-  | .call csp _ (.member msp _ b nm .dot) [] false, lm =>
-    ((cgE mod ρ φ b lm).1 ++ [(.member nm, msp), (.copyPush (.int 0), csp), (.callVal, csp)], (cgE mod ρ φ b lm).2)
-  | e, lm => cgE mod ρ φ e lm
-
-theorem lenCallOK_of_okXE {e : Expr} (h : Frag.okXE e = true) : Frag.lenCallOK e = false := by
-  cases e <;> try rfl
-  rename_i csp cty base args sw
-  cases base <;> try rfl
-  rename_i msp mty b nm mop
-  cases mop <;> try rfl
-  cases args <;> try rfl
-  cases sw <;> try rfl
-  simp [Frag.okXE, Frag.okGE] at h
-
-theorem cgL_of_okXE (mod : String) (ρ φ : String → Option String) {e : Expr} (h : Frag.okXE e = true) (lm : LM) :
-    cgL mod ρ φ e lm = cgE mod ρ φ e lm := by
-  cases e <;> try rfl
-  rename_i csp cty base args sw
-  cases base <;> try rfl
-  rename_i msp mty b nm mop
-  cases mop <;> try rfl
-  cases args <;> try rfl
-  cases sw <;> try rfl
-  simp [Frag.okXE, Frag.okGE] at h
-
-theorem depthL_of_okXE {e : Expr} (h : Frag.okXE e = true) : Frag.depthL e = Frag.depthGE e := by
-  cases e <;> try rfl
-  rename_i csp cty base args sw
-  cases base <;> try rfl
-  rename_i msp mty b nm mop
-  cases mop <;> try rfl
-  cases args <;> try rfl
-  cases sw <;> try rfl
-  simp [Frag.okXE, Frag.okGE] at h
-
-theorem varsL_of_okXE {e : Expr} (h : Frag.okXE e = true) : Frag.varsL e = Frag.varsGE e := by
-  cases e <;> try rfl
-  rename_i csp cty base args sw
-  cases base <;> try rfl
-  rename_i msp mty b nm mop
-  cases mop <;> try rfl
-  cases args <;> try rfl
-  cases sw <;> try rfl
-  simp [Frag.okXE, Frag.okGE] at h
-
-theorem callsL_of_okXE {e : Expr} (h : Frag.okXE e = true) : Frag.callsL e = Frag.callsGE e := by
-  cases e <;> try rfl
-  rename_i csp cty base args sw
-  cases base <;> try rfl
-  rename_i msp mty b nm mop
-  cases mop <;> try rfl
-  cases args <;> try rfl
-  cases sw <;> try rfl
-  simp [Frag.okXE, Frag.okGE] at h
-
-/-- The shape of an accepted `l.len()`. -/
-theorem lenCallOK_inv {e : Expr} (h : Frag.lenCallOK e = true) :
-    ∃ csp cty msp mty b, e = .call csp cty (.member msp mty b "len" .dot) [] false ∧ Frag.okXE b = true := by
-  cases e <;> try (simp [Frag.lenCallOK] at h; done)
-  rename_i csp cty base args sw
-  cases base <;> try (simp [Frag.lenCallOK] at h; done)
-  rename_i msp mty b nm mop
-  cases mop <;> try (simp [Frag.lenCallOK] at h; done)
-  cases args <;> try (simp [Frag.lenCallOK] at h; done)
-  cases sw <;> try (simp [Frag.lenCallOK] at h; done)
-  simp only [Frag.lenCallOK, Bool.and_eq_true, beq_iff_eq] at h
-  obtain ⟨rfl, hb⟩ := h
-  exact ⟨csp, cty, msp, mty, b, rfl, hb⟩
-
 /-- Compound assignment to a heap slot: the current value is duplicated first … -/
 def opPre (op : Option InfixOp) (sp : Span) : SCode :=
   match op with
@@ -435,7 +387,7 @@ labels of the enclosing loops, innermost first. -/
 def cgS (mod fn : String) (φ : String → Option String) :
     List (String × String) → Stmt → CEnv → SCode × CEnv
   | _, .letS sp name _ false _ e, env =>
-    let ce := cgL mod (ρS env.scopes) φ e env.lm
+    let ce := cgE mod (ρS env.scopes) φ e env.lm
     let fv := freshVar mod { env with lm := ce.2 } name
     (ce.1 ++ [(.setVar fv.1, sp)], { fv.2 with nv := fv.2.nv + 1 })
   | _, .exprS _ (.assign asp none (.ident _ _ name false _ false) r), env =>
@@ -620,32 +572,32 @@ mutual
 /-- The statement fragment; `fr`: `for` loops are allowed; `il`: inside a loop (`break`/`continue` are
 allowed); `rt`: `return` is allowed. -/
 def okFS : Bool → Bool → Bool → Stmt → Bool
-  | fr, _, _, .letS _ _ _ needsCast _ e => !needsCast && (okXE e || (fr && lenCallOK e))
-  | _, _, _, .exprS _ (.assign _ none (.ident _ _ _ false _ false) r) => okXE r
-  | _, _, _, .exprS _ (.assign _ (some op) (.ident _ _ _ false _ false) r) => !isLogical op && okXE r
-  | _, _, _, .exprS _ (.assign _ op (.index isp ity b i) r) =>
-    opOK op && okXE (.index isp ity b i) && okXE r && (callsGE r).isEmpty
-  | _, _, _, .exprS _ (.assign _ op (.member msp mty b name .dot) r) =>
-    opOK op && okXE (.member msp mty b name .dot) && okXE r && (callsGE r).isEmpty
-  | fr, il, rt, .exprS _ (.ifE _ ty c t (some eb)) => ty.isNull && okGE c && okFBS fr il rt t && okFBS fr il rt eb
-  | fr, il, rt, .exprS _ (.ifE _ ty c t none) => ty.isNull && okGE c && okFBS fr il rt t
+  | fr, _, _, .letS _ _ _ needsCast _ e => !needsCast && okV fr e
+  | fr, _, _, .exprS _ (.assign _ none (.ident _ _ _ false _ false) r) => okV fr r
+  | fr, _, _, .exprS _ (.assign _ (some op) (.ident _ _ _ false _ false) r) => !isLogical op && okV fr r
+  | fr, _, _, .exprS _ (.assign _ op (.index isp ity b i) r) =>
+    opOK op && okV fr (.index isp ity b i) && okV fr r && (callsGE r).isEmpty
+  | fr, _, _, .exprS _ (.assign _ op (.member msp mty b name .dot) r) =>
+    opOK op && okV fr (.member msp mty b name .dot) && okV fr r && (callsGE r).isEmpty
+  | fr, il, rt, .exprS _ (.ifE _ ty c t (some eb)) => ty.isNull && okE fr c && okFBS fr il rt t && okFBS fr il rt eb
+  | fr, il, rt, .exprS _ (.ifE _ ty c t none) => ty.isNull && okE fr c && okFBS fr il rt t
   | fr, il, rt, .exprS _ (.tryE _ ty t _ c) => ty.isNull && okFBS fr false false t && okFBS fr il rt c
   | fr, il, rt, .exprS _ (.matchE _ ty c arms (some (.blockE db))) =>
-    ty.isNull && okGE c && okFArmsS fr il rt arms && okFBS fr il rt db
+    ty.isNull && okE fr c && okFArmsS fr il rt arms && okFBS fr il rt db
   | fr, _, _, .exprS _ (.call _ cty (.member _ _ b nm .dot) [a] false) =>
-    fr && nm == "push" && cty.isNull && okXE b && atomE a.2
-  | _, _, _, .exprS _ (.call csp cty (.ident isp ity name g f si) args sw) =>
+    fr && nm == "push" && cty.isNull && okV fr b && okV fr a.2 && (atomE b || atomE a.2)
+  | fr, _, _, .exprS _ (.call csp cty (.ident isp ity name g f si) args sw) =>
     if name == "throw" then
       !sw && decide (args.length = 1) && args.all (fun a => atomE a.2)
     else if name == "println" then
-      cty.isNull && !sw && okGArgs args && oneNonAtom args && decide (args.length < 2 ^ 64)
-    else !cty.isNull && okGE (.call csp cty (.ident isp ity name g f si) args sw)
-  | fr, _, rt, .whileS _ c body => okGE c && okFBS fr true rt body
+      cty.isNull && !sw && okEArgs fr args && oneNonAtom args && decide (args.length < 2 ^ 64)
+    else !cty.isNull && okE fr (.call csp cty (.ident isp ity name g f si) args sw)
+  | fr, _, rt, .whileS _ c body => okE fr c && okFBS fr true rt body
   | fr, _, rt, .loopS _ body => okFBS fr true rt body
-  | fr, _, rt, .forS _ _ _ (.range _ a b _) (.mk _ _ stmts none) => fr && okGE a && okGE b && okFSs fr true rt stmts
+  | fr, _, rt, .forS _ _ _ (.range _ a b _) (.mk _ _ stmts none) => fr && okE fr a && okE fr b && okFSs fr true rt stmts
   | _, il, _, .brk _ => il
   | _, il, _, .cont _ => il
-  | _, _, rt, .ret _ (some e) => rt && okGE e
+  | fr, _, rt, .ret _ (some e) => rt && okE fr e
   | _, _, _, _ => false
 def okFSs : Bool → Bool → Bool → List Stmt → Bool
   | _, _, _, [] => true
@@ -669,7 +621,7 @@ abbrev okGArmsS (il rt : Bool) (arms : List (List Expr × Expr)) : Bool := okFAr
 
 mutual
 def depthGS : Stmt → Nat
-  | .letS _ _ _ _ _ e => depthL e + 2
+  | .letS _ _ _ _ _ e => depthGE e + 2
   | .exprS _ (.assign _ _ (.index _ _ b i) r) => max (depthGE b) (max (depthGE i) (depthGE r)) + 3
   | .exprS _ (.assign _ _ (.member _ _ b _ _) r) => max (depthGE b) (depthGE r) + 3
   | .exprS _ (.assign _ _ _ r) => depthGE r + 2
@@ -709,7 +661,7 @@ def wsGArgs (scopes : List (List (String × String))) (φ : String → Option St
 
 mutual
 def wsGS (mod fn : String) (φ : String → Option String) : List (String × String) → Stmt → CEnv → Bool
-  | _, .letS _ _ _ _ _ e, env => resolved env.scopes (varsL e) && callsOK env.scopes φ (callsL e)
+  | _, .letS _ _ _ _ _ e, env => wsGE env.scopes φ e
   | _, .exprS _ (.assign _ _ (.ident _ _ name _ _ _) r), env =>
     (ρS env.scopes name).isSome && wsGE env.scopes φ r
   | _, .exprS _ (.assign _ _ (.index isp ity b i) r), env =>
@@ -794,7 +746,7 @@ def namesGArgs (args : List (String × Expr)) : List String := varsGArgs args ++
 mutual
 /-- The identifiers a statement declares, reads, assigns or calls. -/
 def identsGS : Stmt → List String
-  | .letS _ name _ _ _ e => name :: namesL e
+  | .letS _ name _ _ _ e => name :: namesGE e
   | .exprS _ (.assign _ _ (.ident _ _ name _ _ _) r) => name :: namesGE r
   | .exprS _ (.assign _ _ (.index isp ity b i) r) => namesGE (.index isp ity b i) ++ namesGE r
   | .exprS _ (.assign _ _ (.member msp mty b name mop) r) => namesGE (.member msp mty b name mop) ++ namesGE r
@@ -826,7 +778,7 @@ end Frag
 
 theorem okFS_idxAssign (fr il rt sp asp op isp ity b i r) :
     Frag.okFS fr il rt (.exprS sp (.assign asp op (.index isp ity b i) r)) =
-      (opOK op && Frag.okXE (.index isp ity b i) && Frag.okXE r && (Frag.callsGE r).isEmpty) := by
+      (opOK op && Frag.okV fr (.index isp ity b i) && Frag.okV fr r && (Frag.callsGE r).isEmpty) := by
   cases op <;> simp only [Frag.okFS]
 
 theorem cgS_idxAssign (mod fn φ loops sp asp op isp ity b i r) (env : CEnv) :
@@ -856,7 +808,7 @@ theorem depthGS_idxAssign (sp asp op isp ity b i r) :
 
 theorem okFS_memAssign (fr il rt sp asp op msp mty b name r) :
     Frag.okFS fr il rt (.exprS sp (.assign asp op (.member msp mty b name .dot) r)) =
-      (opOK op && Frag.okXE (.member msp mty b name .dot) && Frag.okXE r && (Frag.callsGE r).isEmpty) := by
+      (opOK op && Frag.okV fr (.member msp mty b name .dot) && Frag.okV fr r && (Frag.callsGE r).isEmpty) := by
   cases op <;> simp only [Frag.okFS]
 
 theorem cgS_memAssign (mod fn φ loops sp asp op msp mty b name r) (env : CEnv) :
@@ -881,5 +833,211 @@ theorem depthGS_memAssign (sp asp op msp mty b name mop r) :
     Frag.depthGS (.exprS sp (.assign asp op (.member msp mty b name mop) r)) =
       max (Frag.depthGE b) (Frag.depthGE r) + 3 := by
   simp only [Frag.depthGS]
+
+/-! ## `okGE` inside `okE` -/
+
+theorem depthGE_pos0 (e : Expr) : 1 ≤ Frag.depthGE e := by
+  cases e <;> try (simp [Frag.depthGE]; done)
+  case ifE sp ty c t el => cases el <;> simp [Frag.depthGE]
+  case matchE sp ty c arms dflt => cases dflt <;> simp [Frag.depthGE]
+  case call sp ty base args sw => cases base <;> simp [Frag.depthGE]
+
+theorem isRead_of_okGE : ∀ (n : Nat) (e : Expr), Frag.depthGE e ≤ n → Frag.okGE e = true → Frag.isRead e = false := by
+  intro n
+  induction n with
+  | zero => intro e hd; have := depthGE_pos0 e; omega
+  | succ n ih =>
+    intro e hd h
+    cases e <;> try rfl
+    case grouped sp e =>
+      simp only [Frag.okGE] at h
+      simp only [Frag.depthGE] at hd
+      simp only [Frag.isRead]
+      exact ih e (by omega) h
+    case index => simp [Frag.okGE] at h
+    case member => simp [Frag.okGE] at h
+
+theorem okE_of_okGE (fr : Bool) : ∀ (n : Nat),
+    (∀ (e : Expr), Frag.depthGE e ≤ n → Frag.okGE e = true → Frag.okE fr e = true) ∧
+    (∀ (arms : List (List Expr × Expr)), Frag.depthGArms arms ≤ n → Frag.okGArms arms = true → Frag.okEArms fr arms = true) ∧
+    (∀ (b : Block), Frag.depthGB b ≤ n → Frag.okGB b = true → Frag.okEB fr b = true) ∧
+    (∀ (args : List (String × Expr)), Frag.depthGArgs args ≤ n → Frag.okGArgs args = true →
+      Frag.okEArgs fr args = true) := by
+  intro n
+  induction n with
+  | zero =>
+    refine ⟨?_, ?_, ?_, ?_⟩
+    · intro e hd; have := depthGE_pos0 e; omega
+    · intro arms hd; cases arms <;> simp [Frag.depthGArms] at hd
+    · intro b hd; obtain ⟨sp, ty, stmts, oe⟩ := b; cases oe <;> simp [Frag.depthGB] at hd
+    · intro args hd; cases args <;> simp [Frag.depthGArgs] at hd
+  | succ n ih =>
+    obtain ⟨ihE, ihM, ihB, ihA⟩ := ih
+    refine ⟨?_, ?_, ?_, ?_⟩
+    · intro e hd h
+      cases e <;> try (simp [Frag.okGE] at h; done)
+      case int | bool | str | null | none => rfl
+      case ident => simpa [Frag.okGE, Frag.okE] using h
+      case grouped sp e =>
+        simp only [Frag.okGE] at h; simp only [Frag.depthGE] at hd; simp only [Frag.okE]
+        exact ihE e (by omega) h
+      case pre sp ty op e =>
+        simp only [Frag.okGE] at h; simp only [Frag.depthGE] at hd; simp only [Frag.okE]
+        exact ihE e (by omega) h
+      case «infix» sp ty op l r =>
+        simp only [Frag.okGE, Bool.or_eq_true, Bool.and_eq_true] at h
+        simp only [Frag.depthGE] at hd
+        simp only [Frag.okE, Bool.or_eq_true, Bool.and_eq_true]
+        rcases h with h | ⟨⟨hlog, hl⟩, hr⟩
+        · exact Or.inl h
+        · refine Or.inr ⟨⟨⟨hlog, ihE l (by omega) hl⟩, ihE r (by omega) hr⟩, Or.inl ?_⟩
+          rw [isRead_of_okGE _ l (Nat.le_refl _) hl]; rfl
+      case ifE sp ty c t el =>
+        cases el with
+        | none => simp [Frag.okGE] at h
+        | some eb =>
+          simp only [Frag.okGE, Bool.and_eq_true] at h
+          simp only [Frag.depthGE] at hd
+          simp only [Frag.okE, Bool.and_eq_true]
+          exact ⟨⟨ihE c (by omega) h.1.1, ihB t (by omega) h.1.2⟩, ihB eb (by omega) h.2⟩
+      case call sp ty base args sw =>
+        cases base <;> try (simp [Frag.okGE] at h; done)
+        cases sw <;> try (simp [Frag.okGE] at h; done)
+        simp only [Frag.okGE, Bool.and_eq_true] at h
+        simp only [Frag.depthGE] at hd
+        simp only [Frag.okE, Bool.and_eq_true]
+        exact ⟨⟨h.1.1, ihA args (by omega) h.1.2⟩, h.2⟩
+      case matchE sp ty c arms dflt =>
+        cases dflt with
+        | none => simp [Frag.okGE] at h
+        | some d =>
+          simp only [Frag.okGE, Bool.and_eq_true] at h
+          simp only [Frag.depthGE] at hd
+          simp only [Frag.okE, Bool.and_eq_true]
+          exact ⟨⟨ihE c (by omega) h.1.1, ihM arms (by omega) h.1.2⟩, ihE d (by omega) h.2⟩
+      case list => simpa [Frag.okGE, Frag.okE] using h
+      case obj => simpa [Frag.okGE, Frag.okE] using h
+    · intro arms hd h
+      cases arms with
+      | nil => rfl
+      | cons a as =>
+        simp only [Frag.okGArms, Bool.and_eq_true] at h
+        simp only [Frag.depthGArms] at hd
+        simp only [Frag.okEArms, Bool.and_eq_true]
+        exact ⟨⟨h.1.1, ihE a.2 (by omega) h.1.2⟩, ihM as (by omega) h.2⟩
+    · intro b hd h
+      obtain ⟨sp, ty, stmts, oe⟩ := b
+      cases stmts <;> cases oe <;> try (simp [Frag.okGB] at h; done)
+      simp only [Frag.okGB] at h
+      simp only [Frag.depthGB] at hd
+      simp only [Frag.okEB]
+      exact ihE _ (by omega) h
+    · intro args hd h
+      cases args with
+      | nil => rfl
+      | cons a as =>
+        simp only [Frag.okGArgs, Bool.and_eq_true] at h
+        simp only [Frag.depthGArgs] at hd
+        simp only [Frag.okEArgs, Bool.and_eq_true]
+        exact ⟨ihE a.2 (by omega) h.1, ihA as (by omega) h.2⟩
+
+theorem okE_okGE (fr : Bool) (e : Expr) (h : Frag.okGE e = true) : Frag.okE fr e = true :=
+  (okE_of_okGE fr _).1 e (Nat.le_refl _) h
+
+theorem okEArgs_okGArgs (fr : Bool) (args : List (String × Expr)) (h : Frag.okGArgs args = true) :
+    Frag.okEArgs fr args = true :=
+  (okE_of_okGE fr _).2.2.2 args (Nat.le_refl _) h
+
+theorem okE_mono (fr : Bool) : ∀ (n : Nat),
+    (∀ (e : Expr), Frag.depthGE e ≤ n → Frag.okE false e = true → Frag.okE fr e = true) ∧
+    (∀ (arms : List (List Expr × Expr)), Frag.depthGArms arms ≤ n → Frag.okEArms false arms = true →
+      Frag.okEArms fr arms = true) ∧
+    (∀ (b : Block), Frag.depthGB b ≤ n → Frag.okEB false b = true → Frag.okEB fr b = true) ∧
+    (∀ (args : List (String × Expr)), Frag.depthGArgs args ≤ n → Frag.okEArgs false args = true →
+      Frag.okEArgs fr args = true) := by
+  intro n
+  induction n with
+  | zero =>
+    refine ⟨?_, ?_, ?_, ?_⟩
+    · intro e hd; have := depthGE_pos0 e; omega
+    · intro arms hd; cases arms <;> simp [Frag.depthGArms] at hd
+    · intro b hd; obtain ⟨sp, ty, stmts, oe⟩ := b; cases oe <;> simp [Frag.depthGB] at hd
+    · intro args hd; cases args <;> simp [Frag.depthGArgs] at hd
+  | succ n ih =>
+    obtain ⟨ihE, ihM, ihB, ihA⟩ := ih
+    refine ⟨?_, ?_, ?_, ?_⟩
+    · intro e hd h
+      cases e <;> try (simp [Frag.okE] at h; done)
+      case int | bool | str | null | none => rfl
+      case ident => simpa [Frag.okE] using h
+      case grouped sp e =>
+        simp only [Frag.okE] at h ⊢; simp only [Frag.depthGE] at hd
+        exact ihE e (by omega) h
+      case pre sp ty op e =>
+        simp only [Frag.okE] at h ⊢; simp only [Frag.depthGE] at hd
+        exact ihE e (by omega) h
+      case «infix» sp ty op l r =>
+        simp only [Frag.okE, Bool.or_eq_true, Bool.and_eq_true] at h ⊢
+        simp only [Frag.depthGE] at hd
+        rcases h with h | ⟨⟨⟨hlog, hl⟩, hr⟩, hv⟩
+        · exact Or.inl h
+        · exact Or.inr ⟨⟨⟨hlog, ihE l (by omega) hl⟩, ihE r (by omega) hr⟩, hv⟩
+      case ifE sp ty c t el =>
+        cases el with
+        | none => simp [Frag.okE] at h
+        | some eb =>
+          simp only [Frag.okE, Bool.and_eq_true] at h ⊢
+          simp only [Frag.depthGE] at hd
+          exact ⟨⟨ihE c (by omega) h.1.1, ihB t (by omega) h.1.2⟩, ihB eb (by omega) h.2⟩
+      case call sp ty base args sw =>
+        cases base <;> try (simp [Frag.okE] at h; done)
+        case ident =>
+          cases sw <;> try (simp [Frag.okE] at h; done)
+          simp only [Frag.okE, Bool.and_eq_true] at h ⊢
+          simp only [Frag.depthGE] at hd
+          exact ⟨⟨h.1.1, ihA args (by omega) h.1.2⟩, h.2⟩
+        case member msp mty b nm mop =>
+          cases mop <;> cases args <;> cases sw <;> simp [Frag.okE] at h
+      case matchE sp ty c arms dflt =>
+        cases dflt with
+        | none => simp [Frag.okE] at h
+        | some d =>
+          simp only [Frag.okE, Bool.and_eq_true] at h ⊢
+          simp only [Frag.depthGE] at hd
+          exact ⟨⟨ihE c (by omega) h.1.1, ihM arms (by omega) h.1.2⟩, ihE d (by omega) h.2⟩
+      case list => simpa [Frag.okE] using h
+      case obj => simpa [Frag.okE] using h
+      case member sp ty b nm mop => cases mop <;> simp [Frag.okE] at h
+    · intro arms hd h
+      cases arms with
+      | nil => rfl
+      | cons a as =>
+        simp only [Frag.okEArms, Bool.and_eq_true] at h ⊢
+        simp only [Frag.depthGArms] at hd
+        exact ⟨⟨h.1.1, ihE a.2 (by omega) h.1.2⟩, ihM as (by omega) h.2⟩
+    · intro b hd h
+      obtain ⟨sp, ty, stmts, oe⟩ := b
+      cases stmts <;> cases oe <;> try (simp [Frag.okEB] at h; done)
+      simp only [Frag.okEB] at h ⊢
+      simp only [Frag.depthGB] at hd
+      exact ihE _ (by omega) h
+    · intro args hd h
+      cases args with
+      | nil => rfl
+      | cons a as =>
+        simp only [Frag.okEArgs, Bool.and_eq_true] at h ⊢
+        simp only [Frag.depthGArgs] at hd
+        exact ⟨ihE a.2 (by omega) h.1, ihA as (by omega) h.2⟩
+
+theorem okE_false_mono (fr : Bool) (e : Expr) (h : Frag.okE false e = true) : Frag.okE fr e = true :=
+  (okE_mono fr _).1 e (Nat.le_refl _) h
+
+theorem okEArgs_false_mono (fr : Bool) (args : List (String × Expr)) (h : Frag.okEArgs false args = true) :
+    Frag.okEArgs fr args = true :=
+  (okE_mono fr _).2.2.2 args (Nat.le_refl _) h
+
+theorem okV_false_mono (fr : Bool) (e : Expr) (h : Frag.okV false e = true) : Frag.okV fr e = true := by
+  simp only [Frag.okV, Bool.or_eq_true] at h ⊢
+  exact h.imp id (okE_false_mono fr e)
 
 end HmsProofs.Sim
